@@ -567,3 +567,52 @@ def generate_viz(seed, count):
         cfg = dict(defer=rng.random() < 0.2, recover=rng.random() < 0.8, dry=False)
         out.append(dict(id=f"viz-{seed}-{ci}", profile="viz", viz=True, config=cfg, fns=fns, ops=ops))
     return out
+
+
+# ---------------------------------------------------------------- bounded-exhaustive family for C05
+
+def exhaustive_cycles(nctors, with_export, late_scope=False):
+    """EVERY history of this shape: nctors constructors, constructor i provides
+    key i and consumes any subset of the keys {0..nctors-1} (self included);
+    each is provided to any scope of either 3-scope tree (chain or fork),
+    optionally exported; both verification modes; then every key is invoked
+    from the deepest scope(s).  With late_scope the last scope is created after
+    the registrations of its ancestors (scope-creation order)."""
+    import itertools
+    out = []
+    shapes = {"chain": [0, 1], "fork": [0, 0]}        # parents of scopes 1 and 2
+    subsets = list(itertools.chain.from_iterable(itertools.combinations(range(nctors), k) for k in range(nctors + 1)))
+    exports = list(itertools.product([False, True], repeat=nctors)) if with_export else [tuple([False] * nctors)]
+    cid = 0
+    for shape, parents in shapes.items():
+        for deps in itertools.product(subsets, repeat=nctors):
+            for scopes in itertools.product(range(3), repeat=nctors):
+                for exp in exports:
+                    for defer in (False, True):
+                        fns, ops = [], []
+                        ops.append(dict(op="scope", parent=parents[0]))
+                        if not late_scope:
+                            ops.append(dict(op="scope", parent=parents[1]))
+                        pending = []
+                        for i in range(nctors):
+                            f = dict(id=i, params=[dict(k="single", ty=d, name=0, opt=False) for d in deps[i]],
+                                     results=[dict(k="single", ty=i, name=0, **{"as": []})], err=False)
+                            fns.append(f)
+                            o = dict(op="provide", scope=scopes[i], fn=i, export=exp[i])
+                            if late_scope and scopes[i] == 2:
+                                pending.append(o)
+                            else:
+                                ops.append(o)
+                        if late_scope:
+                            ops.append(dict(op="scope", parent=parents[1]))
+                            ops += pending
+                        nf = nctors
+                        for sc in (2, 1):
+                            for k in range(nctors):
+                                fns.append(dict(id=nf, params=[dict(k="single", ty=k, name=0, opt=False)], results=[], err=False))
+                                ops.append(dict(op="invoke", scope=sc, fn=nf))
+                                nf += 1
+                        out.append(dict(id=f"exh-{shape}-{cid}", profile="exhaustive-cycles",
+                                        config=dict(defer=defer, recover=True, dry=False), fns=fns, ops=ops))
+                        cid += 1
+    return out
